@@ -194,6 +194,12 @@ func AddRandomPoints(g *world.G, i, lo, hi int, mix TagMix, slotPred func(world.
 func LiteralHolder(rng *rand.Rand, id, k int, sc *world.Scenario, mix TagMix) any {
 	fts := world.PaletteFieldTypes()
 	var fields []world.FieldSpec
+	if rng.Intn(6) == 0 {
+		// an optional point of a kind that cannot take a component (a map, a pointer to a pointer), declared in
+		// front of the others: it stays as it is and has no bearing on the points after it
+		odd := []reflect.Type{reflect.TypeOf(map[string]string{}), reflect.TypeOf((**world.T00)(nil)), reflect.TypeOf(0)}[rng.Intn(3)]
+		fields = append(fields, world.FieldSpec{Name: fmt.Sprintf("H%dOdd", id), Type: odd, Tag: world.WireTag("wire", ",required=false")})
+	}
 	for i := 0; i < k; i++ {
 		ft := fts[rng.Intn(len(fts))]
 		if rng.Intn(2) == 0 { // favour interface-typed fields (more candidates)
